@@ -45,6 +45,10 @@ func init() {
 			for _, u := range enum.SeqUnits("bytes", "kw", len(enum.ByteAlphabets["kw"]), L, 2) {
 				us = append(us, core.Unit{Name: u})
 			}
+			// symbol runes aliasing ASCII symbols under truncation / width folding, Unicode-only blanks
+			for _, u := range enum.SeqUnits("bytes", "alias", len(enum.ByteAlphabets["alias"]), L-1, 2) {
+				us = append(us, core.Unit{Name: u})
+			}
 			return us
 		},
 		Run: func(w *core.Worker, tier, unit string) {
@@ -56,7 +60,7 @@ func init() {
 		},
 		Eval:   c16Eval,
 		Shrink: shrinkBytes,
-		Rule: "BYTES(B_lex,L) ∪ BYTES(B_utf8,L+1): every byte string over the class representatives, depth-first; " +
+		Rule: "BYTES(B_lex,L) ∪ BYTES(B_utf8,L+1) ∪ BYTES(B_kw,L) ∪ BYTES(B_alias,L-1): every byte string over the class representatives, depth-first; " +
 			"on each, every Peek/Next call sequence of length <= D against the stream model; non-trivial = lexes without error token to >= 1 token; " +
 			"distinct = distinct token-type sequences",
 		Assumptions: []string{
@@ -312,6 +316,13 @@ func independentMustFail(in string) string {
 			}
 			if illegal && prevOK {
 				return fmt.Sprintf("byte %q at %d cannot start a token", b, i)
+			}
+			if w > 1 {
+				// a valid non-ASCII rune that is a symbol, punctuation, separator or control character
+				// is not part of any word and starts no token, wherever it stands
+				if r, _ := utf8.DecodeRuneInString(in[i:]); unicode.IsSymbol(r) || unicode.IsPunct(r) || unicode.IsSpace(r) || unicode.IsControl(r) {
+					return fmt.Sprintf("rune %q at %d cannot start a token", r, i)
+				}
 			}
 			prevOK = strings.ContainsRune(" \t\r\n()[]{}:+=><~^", rune(b))
 			i += w
